@@ -5,6 +5,11 @@ HERE = os.path.dirname(os.path.dirname(os.path.abspath(__file__)))
 ALL = ["C%02d" % i for i in range(1, 21)]
 # id -> (category, engine, technique, level text, level note, design ref)
 CHECKS = {
+ "C07": ("model_checking", "E2-bfs",
+   "exhaustive enumeration of all call sequences up to depth 3 (thorough 4) over the Reader/ReaderRef API on real readers, differential oracle against first-call results",
+   "For one feature-rich workbook per format (3 sheets incl. chart/hidden sheet, shared strings, 1-D and 2-D shared formulas, dates, merged regions, a table, a VBA project, a defined name, a gap row) every sequence of <=3 (thorough 4) calls over 13 Reader calls, 3 header-row settings and the format's own calls (range_ref, merge cells, merged regions, tables) is replayed on a fresh reader (32 k / 665 k sequences): every result must equal the result of the same call made first on a fresh reader under the header-row option then in force. In addition range == range_ref == range_at(n) == worksheets()[name] for every sheet, unknown names are not-found errors, and the auto-detected Sheets reader returns the same results as the format's own reader for every common call under every option.",
+   "Trusted: the workbook builders; results compared through Debug renderings.",
+   "DESIGN.md §2 C07"),
  "C20": ("model_checking", "E1-choice",
    "stateless choice-tree exploration of encrypted containers (OOXML-in-CFB, BIFF8 FILEPASS, ods manifests) and of unencrypted workbooks on the real readers",
    "Encrypted OOXML packages (6 sizes around the mini-stream cutoff, 4 EncryptionInfo variants, DataSpaces storage or not) in CFB layouts (v3/v4, 5 sector orders, directory variations) opened with Xlsx and Xlsb; BIFF8 workbooks with FILEPASS of 4 kinds at both legal positions with garbled record bodies; ods manifests with encryption-data on the first, a middle, the last, all or several of 3-5 entries: every one must fail with the reader's Password error. Conversely unencrypted xlsx (every C01 encoding), xlsb, xls (CFB layouts, extra streams, WRITEPROTECT) and ods workbooks whose names and strings spell the trigger words must open. Full product for ods/plain (thorough: all families), <=3 deviations otherwise.",
